@@ -126,6 +126,11 @@ func (w *watches) updatePath(path string, f func(*watch) (*watch, error)) error 
 
 		if upd.wd != wd {
 			delete(w.wd, wd)
+			// The path now refers to a file that's already watched under
+			// another path: that watch wins and this path is no longer listed.
+			if ok && upd.path != path {
+				delete(w.path, path)
+			}
 		}
 	}
 
@@ -264,6 +269,13 @@ func (w *inotify) register(path string, flags uint32, recurse bool) error {
 		wd, err := unix.InotifyAddWatch(w.fd, path, flags)
 		if wd == -1 {
 			return nil, err
+		}
+
+		// The path was already watched but now refers to a different file:
+		// release the watch on the old file. The error is ignored as the kernel
+		// may have removed it already.
+		if existing != nil && existing.wd != uint32(wd) {
+			unix.InotifyRmWatch(w.fd, existing.wd)
 		}
 
 		if e, ok := w.watches.wd[uint32(wd)]; ok {
